@@ -409,12 +409,15 @@ func runC15(c *core.Ctx) {
 						if err := root.ParseString(first); err != nil {
 							panic(core.EngineError{Msg: "C15 part D base refused: " + err.Error()})
 						}
+						_ = root.SDL(false, true) // the root is printed after every load: the last print is not the first
 						for _, ui := range seq {
 							loads = append(loads, units[ui])
 							if err := root.ParseString(units[ui]); err != nil {
 								refused = true
 								return
 							}
+							_ = root.SDL(false, true)
+							_ = root.SDL(true)
 						}
 						s1 = root.SDL(false, true)
 					})
